@@ -97,7 +97,32 @@ def replay_recovery(model, cls="SinglePhaseReservoir", nx=5):
     return bad, {"what": f"{cls} nx={nx}: recovery of a quadratic profile {rf.tolist()} vs FVF scale x trapezoid of the exact boundary derivative {want.tolist()}", "inputs": {}}
 
 
-def job_interior(job, cls, nx):
+def replay_reused_fluid(model, nx=5):
+    """Real runs: one SinglePhaseReservoir simulated with one fluid, its `fluid` field replaced by another table (other
+    initial pressure / other diffusivity units), simulated again - against a fresh reservoir built with the new fluid."""
+    import warnings
+    import numpy as np
+    import pandas as pd
+    from bluebonnet.flow import FlowProperties
+    from bluebonnet.flow import reservoir as rr
+    from ..sx import loader
+    pvt = pd.read_csv(loader.REPO + "/tests/data/pvt_gas.csv").rename(columns={"P": "pressure", "Z-Factor": "z-factor", "Cg": "compressibility",
+                                                                        "Viscosity": "viscosity", "Density": "density"})
+    t = np.linspace(0, 1.5, 40) ** 2
+    with warnings.catch_warnings():
+        warnings.simplefilter("ignore")
+        fa, fb = FlowProperties(pvt, 8000.0), FlowProperties(pvt, 5000.0)
+        r = rr.SinglePhaseReservoir(max(nx, 20), 1000.0, 8000.0, fa)
+        r.simulate(t)
+        r.fluid, r.pressure_initial = fb, 5000.0
+        r.simulate(t)
+        f = rr.SinglePhaseReservoir(max(nx, 20), 1000.0, 5000.0, fb)
+        f.simulate(t)
+    d = float(np.abs(np.asarray(r.pseudopressure, float) - np.asarray(f.pseudopressure, float)).max())
+    return d > 1e-9, {"what": f"SinglePhaseReservoir re-used after its fluid was replaced (p_i 8000 -> 5000): field differs from a fresh reservoir's by {d:.3e}", "inputs": {}}
+
+
+def job_interior(job, cls, nx, reused=False):
     mod = load_reservoir()
     job.encoded(mod, f"{cls}.simulate", "_build_matrix")
     job.stub("linear solve: returns the samples of a polynomial test function at the new time (capturing stub)",
@@ -123,6 +148,13 @@ def job_interior(job, cls, nx):
         fluid = FluidStub() if cls != "IdealReservoir" else None
         r = (mod.IdealReservoir(Q(nx), fresh("pf"), fresh("pi", pos=True), None) if fluid is None
              else mod.SinglePhaseReservoir(Q(nx), fresh("pf"), fresh("pi", pos=True), fluid))
+        if reused:
+            # the object has already been run with another fluid (a sweep over tables / initial pressures re-using it):
+            # the scheme of the second run is that of the fluid it carries now
+            old, r.fluid = fluid, FluidStub("old")
+            r.simulate(t)
+            SS.LinSolve.reset(pol)
+            r.fluid = old
         r.simulate(t)
         return r, fluid, t, list(SS.LinSolve.calls)
 
@@ -163,9 +195,9 @@ def job_interior(job, cls, nx):
         if fluid is not None:
             hyp = hyp + list(fluid.alpha.pending)      # range of the diffusivity lookups made for the reference (if the code read the nodes)
         job.prove(f"L1/{cls}[nx={nx}]/reach[path{k}]", pr.pc + hyp, expect="sat", elim=True)
-        job.prove(f"L1/{cls}[nx={nx}]: interior rows exact for cubic-in-x, linear-in-t test functions on the code's mesh[path{k}]",
+        job.prove(f"L1/{cls}[nx={nx}{', object re-used after its fluid was replaced' if reused else ''}]: interior rows exact for cubic-in-x, linear-in-t test functions on the code's mesh[path{k}]",
                   pr.pc + hyp + [T.b_or(*bad) if bad else T.b_const(False)], bound=f"nx={nx}, any dt, any coefficients, any diffusivity",
-                  replay=(replay_mesh, {"cls": cls, "nx": nx}), note="canonical-form identity" if not bad else None)
+                  replay=((replay_reused_fluid, {"nx": nx}) if reused else (replay_mesh, {"cls": cls, "nx": nx})), note="canonical-form identity" if not bad else None)
 
 
 def replay_boundary(model, cls="SinglePhaseReservoir", nx=4):
@@ -388,6 +420,7 @@ def jobs(tier):
     for nx in ((5, 6) if tier == "quick" else (5, 6, 7, 8)):
         for cls in ("IdealReservoir", "SinglePhaseReservoir"):
             out.append((f"L1-{cls[:6]}-{nx}", lambda j, c=cls, n=nx: job_interior(j, c, n)))
+    out.append(("L1-reused-fluid-5", lambda j: job_interior(j, "SinglePhaseReservoir", 5, reused=True)))
     out.append(("boundary-4", lambda j: job_boundary(j, 4)))
     out.append(("recovery-5", lambda j: job_recovery(j, 5)))
     if tier != "quick":
